@@ -63,7 +63,7 @@ func (o TOp) operation(db *dyn.DB) ovsdb.Operation {
 	default:
 		d := true
 		s := "x"
-		return ovsdb.Operation{Op: o.OpName, Durable: &d, Comment: &s, Lock: &s}
+		return ovsdb.Operation{Op: o.OpName, Table: o.Table, Durable: &d, Comment: &s, Lock: &s}
 	}
 }
 
